@@ -5,7 +5,7 @@ import os
 from .model import AnalysisError
 from .report import VERIF
 from .callgraph import closure
-from .rules import r1_resolve, r2_none, r3_ctor, r9_purity, r4_predicates, r5_arghandler, r6_dispatch, r7_binary, r8_accessors, r_list
+from .rules import r1_resolve, r2_none, r3_ctor, r9_purity, r4_predicates, r5_arghandler, r6_dispatch, r7_binary, r8_accessors, r_list, r10_args
 
 _anch = None
 
@@ -241,3 +241,66 @@ def c10(run):
 
 CHECKS['C09'] = c09
 CHECKS['C10'] = c10
+
+
+def c_dev10(run):
+    from .rules import r10_args
+    fs = run.prog.analysed_functions()
+    r10_args.run_r10(run, fs)
+    for k in r10_args.EXTRACTORS:
+        r10_args.check_extraction_units(run, run.prog.func(k))
+    r10_args.check_order_tables(run)
+    run.explanation = 'dev R10'
+
+
+CHECKS['DEV10'] = c_dev10
+
+
+def base_exports(run):
+    prog = run.prog
+    b = prog.modules['spatialmath.base']
+    out = []
+    for nm in (b.all or []):
+        t = prog.resolve_name(b, nm)
+        if t.kind == 'func' and t.obj is not None:
+            out.append(t.obj)
+    if len(out) < 100:
+        run.error('only %d functions exported by spatialmath.base.__all__ resolved (expected > 100)' % len(out))
+    return out
+
+
+def c15(run):
+    prog = run.prog
+    fs = {f.key: f for f in base_exports(run)}
+    for f in anchors(run, 'C15'):
+        fs[f.key] = f
+    # every public method of the classes that takes a vector/angle/unit/order argument
+    for f in prog.analysed_functions():
+        if f.cls is not None and f.parent is None and not f.module.short.startswith('base/'):
+            if any(p in ('unit', 'units', 'order', 'flip') for p in f.allparams) or 'array_like' in f.doc:
+                fs[f.key] = f
+    fl = list(fs.values())
+    r10_args.run_r10(run, fl)
+    for k in r10_args.EXTRACTORS:
+        r10_args.check_extraction_units(run, prog.func(k))
+    r10_args.check_order_tables(run)
+    r3_ctor.run_r3(run)
+    r2_none.run_r2(run, closure(fl, depth=0 if run.tier == 'quick' else 1, prog=prog))
+    run.floor('R10a', 60)
+    run.floor('R10d', 40)
+    run.floor('R10u', 25)
+    run.explanation = ('R10a/b: for every function exported by spatialmath.base.__all__ (read from the source) and every '
+                       'class method documenting an array_like argument, each use of the raw argument is a normaliser '
+                       '(getvector/getmatrix, which map list, tuple, 1-D, row and column forms to the same array -- the '
+                       'trusted root), a form test, a None test, a forward to an array_like parameter, or is dominated by '
+                       'an ndarray/ismatrix test; the documented length is enforced (dim= or a len test whose else '
+                       'raises). R10s: documented scalars are not iterated before getvector. R10d/u/x/o: every option '
+                       'parameter is read; angle values carry a unit typestate raw -> converted: they are forwarded with '
+                       'unit= only while raw and reach trig/exponential kernels only when converted exactly once; '
+                       'extraction functions scale by 180/pi exactly under unit==deg; order chains end in raise and '
+                       'rpy2r/tr2rpy accept the same names. R3/R2: wrong arguments raise rather than yield an empty '
+                       'object or None. Bitwise identity of results follows from normaliser dominance and is not observed.')
+    run.trust(*STATIC_TRUST, 'getvector/getmatrix/getunit are the trusted normaliser roots (their own bodies are covered by C16/C17 rules only)')
+
+
+CHECKS['C15'] = c15
